@@ -6,7 +6,7 @@
 //! (c) outputs of both builders.
 
 use crate::bm::*;
-use crate::c07::{aligned_descendant_sweep, same_number_sweep, cascade_sweep, search_opt, size_sweep, universe, Chain, Mode, UniverseSpec};
+use crate::c07::{aligned_descendant_sweep, consecutive_number_sweep, same_number_sweep, cascade_sweep, search_opt, size_sweep, universe, Chain, Mode, UniverseSpec};
 use crate::c12::make_polygon;
 use crate::refm::{HALF_PI, PI, TWO_PI};
 use crate::report::*;
@@ -238,6 +238,7 @@ pub fn run(ctx: &Ctx) -> i32 {
   searches.push(cascade_sweep(ctx, Mode::Views, &mut total));
   searches.push(aligned_descendant_sweep(ctx, Mode::Views, &mut total));
   searches.push(same_number_sweep(ctx, Mode::Views, &mut total));
+  searches.push(consecutive_number_sweep(ctx, Mode::Views, &mut total));
   // (c) builders
   let seq_universe = universe(&UniverseSpec { name: "seq", dmax: 2, chain: Chain::First, partial: true, unpacked: true, other_bases: &[11], all_depth_max: true });
   let part = par_jobs(16, |j| {
